@@ -15,6 +15,7 @@ import Logrange.Model.JIterObs
 * `w.reset <maxChunkSize>`                        → `ok`           (all partitions empty)
 * `w.write <part> <n> (<ts> <msg> <fields>)*`     → `calls=[first last cid min max; …] start=c:i end=c:i err=0|1`
 * `w.wp <part> <packet> <k> (<text> <parsed|!>)*`  → server side of one RPC write: `rejected` | `panic` | `n=<events> calls=… err=…`
+* `w.writef <part> <cancel c|nonew 0|none 0> <n> (<ts> <msg> <fields>)*` → the same under a fault pattern (`serviceWriteF`)
 * `w.read <part> <maxRecordSize>`                 → `ok <n> (<ts>/<msg>/<fields>)*` | `toosmall <k>` (the k-th record, 0-based, exceeds the read buffer)
 * `w.layout <part>`                               → `<count of chunk 1> <count of chunk 2> …`
 * `tail.probe <old> <fuel> <polls> <count script…>` → `jobs=<probe> tail=<probe>`: the library journal iterator's observation model and
@@ -135,6 +136,14 @@ def step (s : St) (toks : List String) : St × String :=
        (s.set p.toNat! j', s!"n={es.length} " ++ showOut o)
      | .err => (s, "rejected")
      | .panic => (s, "panic"))
+  | "w.writef" :: p :: mode :: param :: n :: rest =>
+    -- a direct write in an environment with faults: mode `cancel <c>` (the context is cancelled when record c is fetched),
+    -- `nonew 0` (no new chunk can be created), `none 0`
+    let evs := readEvents n.toNat! rest
+    let fa : Nat → Journal → Bool :=
+      if mode == "cancel" then faultCancelAt param.toNat! else if mode == "nonew" then faultNoNewChunk s.maxSize else fun _ _ => false
+    let (j', o) := serviceWriteF fa s.maxSize (s.get p.toNat!) (evs.map recOf)
+    (s.set p.toNat! j', showOut o)
   | ["w.read", p, mr] => (s, readBack (s.get p.toNat!) mr.toNat!)
   | ["w.layout", p] => (s, " ".intercalate ((s.get p.toNat!).map (fun c => toString c.recs.length)))
   | _ => (s, "bad-op")
